@@ -16,3 +16,17 @@ class SC(AutoSerialize):
 
 
 CLASSES = {"SA": SA, "SB": SB, "SC": SC}
+
+
+import torch
+
+
+class HybridM(torch.nn.Module, AutoSerialize):
+    """an object that is both a torch module and an AutoSerialize object (as the library's own
+    object / probe / dataset models are)"""
+
+    def __init__(self):
+        super().__init__()
+        self.lin = torch.nn.Linear(2, 2)
+        self.count = 3
+        self.note = "keep"
